@@ -1,5 +1,6 @@
 import PolyVerif.Model.GenbankBuild
 import PolyVerif.Spec.GbStrict
+import PolyVerif.Spec.GbRoundTrip
 /-
 C03 driver.  Cases:
   `rec <record fields>` : a structured record (canonical serialisation, see harness ops_c03.go)
@@ -118,6 +119,25 @@ def render (f : List String) : List String :=
 
 /-! ### judging -/
 
+/-- the parser MODEL's result (property C01's `Genbank.parse`) against the real parser's result as the
+harness reports it: every field the model has -/
+def parsedSame (ym : Genbank.Sequence) (yr : Sequence) : Bool :=
+  let a := ym.md
+  let b := yr.metadata
+  ym.seq == yr.sequence
+    && a.locus.name == b.locus.name && a.locus.seqLength == b.locus.sequenceLength && a.locus.molType == b.locus.moleculeType
+    && a.locus.division == b.locus.genbankDivision && a.locus.date == b.locus.modificationDate
+    && a.locus.coding == b.locus.sequenceCoding && a.locus.circular == b.locus.circular && a.locus.linear == b.locus.linear
+    && a.definition == b.definition && a.accession == b.accession && a.version == b.version && a.keywords == b.keywords
+    && a.source == b.source && a.organism == b.organism
+    && Spec.GbRoundTrip.listApprox (fun (r : Genbank.Reference) (q : Reference) =>
+          r.index == q.index && r.authors == q.authors && r.title == q.title && r.journal == q.journal
+            && r.pubmed == q.pubMed && r.remark == q.remark && r.range == q.range) a.references b.references
+    && sortedEntries a.other == sortedEntries b.other
+    && Spec.GbRoundTrip.listApprox (fun (f : Genbank.Feature) (g : Feature) =>
+          f.type == g.type && f.gbkLoc == g.gbkLocationString && sortedEntries f.attrs == sortedEntries g.attributes)
+        ym.features yr.features
+
 /-- an iteration order different from the insertion order -/
 def otherOrders : MapOrders := { other := [3, 1, 4, 1, 5, 9, 2, 6, 5, 3, 5], quals := fun i => [i, 2, 7, 1, 8, 2, 8, 1, 8] }
 
@@ -212,12 +232,21 @@ def judgeRec (kind : String) (x : Sequence) (tail : List String) : Verdict :=
     let outL := out.toList
     let m := build x MapOrders.id
     let m2 := build x otherOrders
-    let corr := outL == m && m2 == m
+    let y := (decodeRec yf).map (·.1)
+    -- the parser model on the model's text against the real parser on the real text
+    -- (`Genbank.parse` leaves `parseLocation` to property C02's model: a panic there is a panic of Parse)
+    let locPanics (ym : Genbank.Sequence) : Bool :=
+      ym.features.any fun f => match Location.parseLocation f.gbkLoc with | .panic => true | _ => false
+    let pcorr := match Genbank.parse m, pst, y with
+      | .ok ym, "ok", some yr => !locPanics ym && parsedSame ym yr
+      | .ok ym, "panic", _ => locPanics ym
+      | .panic, "panic", _ => true
+      | _, _, _ => false
+    let corr := outL == m && m2 == m && pcorr
     let layoutDom := wfLayout x
     let rtDom := wfSeq x
     let c2 := identical == "true"
     let c3 := strictRead outL == some (abs x)
-    let y := (decodeRec yf).map (·.1)
     let diffs := match y with | some y => diffFields x y | none => ["unparsed"]
     let c4 := pst == "ok" && wrst == "same" && (match y with | some y => seqEquiv x y | none => false)
     let kf := ""
@@ -235,7 +264,8 @@ def judgeRec (kind : String) (x : Sequence) (tail : List String) : Verdict :=
           (match strictRead outL with | some _ => "other record" | none => "rejected") ++ "]")
         ++ (if !rtDom || c4 then "" else "[round trip: parse=" ++ pst ++ " write/read=" ++ wrst ++ " differing: " ++ ", ".intercalate diffs ++ "]")
         ++ (if layoutDom then "" else "[outside the layout domain: " ++ whyNotLayout x ++ "]")
-        ++ (if corr then "" else
+        ++ (if pcorr then "" else "[parser model differs from the real parser on this text]")
+        ++ (if outL == m && m2 == m then "" else
               let k := firstDiff outL m
               "[model differs at " ++ toString k ++ ": impl …" ++ snippet outL k ++ "… model …" ++ snippet m k ++ "…]")
     { corr := corr,
@@ -243,6 +273,7 @@ def judgeRec (kind : String) (x : Sequence) (tail : List String) : Verdict :=
       cls := (if triv then "triv:" else "") ++ kind ++ "/feat" ++ sizeTag x.features.length ++ "/ref" ++ sizeTag x.metadata.references.length
              ++ "/other" ++ sizeTag x.metadata.other.length ++ (if wraps then "/wrap" else "") ++ (if cached then "/cached" else "")
              ++ (if structural then "/structural" else "") ++ (if rtDom then "/rt" else if layoutDom then "/layout-only" else "/out")
+             ++ (if Spec.GbRoundTrip.covered x then "/pb" else "")
              ++ (if x.sequence.length > 10000 then "/long" else "") ++ reg ++ kf,
       detail := why }
   | _ => { corr := false, judge := none, cls := kind ++ "/bad-reply", detail := "bad reply" }
